@@ -198,6 +198,9 @@ class Facts:
             if node.kind == "test" and isinstance(label, bool):
                 cur[0] = node.id
                 return refine_bool(node.ast, label, state, atom, join)
+            if node.kind == "stmt" and isinstance(node.stmt, ast.Assert) and label != "assert" and not (isinstance(label, str) and label.startswith("exc")):
+                cur[0] = node.id
+                return refine_bool(node.stmt.test, True, state, atom, join)
             return state
         self.ins, self.outs = forward(self.cfg, frozenset([frozenset()]), transfer, join, refine)
 
